@@ -304,6 +304,47 @@ class Crosstab3DSpace(_Base):
             self.judge(out, rank, "crosstab", self.z, self.v3, self.zchs[a], vch, kw, layer_coords=["a", "b", "c"])
 
 
+class BlockCountSpace(_Base):
+    """number of blocks as a dimension: 1 x n rasters split into n one-cell blocks (n = 1..N) and small grids split into
+    one-cell blocks, with one zone living only in the LAST block and one only in the FIRST (tree/grouped reductions over
+    the block axis behave differently for 4k+1, odd x odd, ... block counts)."""
+
+    def __init__(self, tier):
+        ns = list(range(1, 13)) if tier == "quick" else list(range(1, 22))
+        self.layouts = [((1, n), ((1,), (1,) * n)) for n in ns]
+        self.layouts += [((3, 3), ((1, 1, 1), (1, 1, 1))), ((2, 3), ((1, 1), (1, 1, 1)))]
+        if tier == "thorough":
+            self.layouts += [((3, 5), ((1, 1, 1), (1, 1, 1, 1, 1))), ((5, 5), ((1,) * 5, (1,) * 5)), ((2, 8), ((2,), (1,) * 8))]
+        self.items = [("stats", {}), ("crosstab", {"agg": "count"}), ("crosstab", {"agg": "percentage"}),
+                      ("stats", {"zone_ids": [9.0, 1.0]})]
+        self.name = "block_count_sweep"
+        self.size = len(self.layouts) * len(self.items)
+        self.grain = 1
+        self.weight = 30.0
+
+    def case(self, rank):
+        li, ii = divmod(rank, len(self.items))
+        shape, ch = self.layouts[li]
+        n = shape[0] * shape[1]
+        z = np.array([float(i % 3 + 1) for i in range(n)])
+        z[0] = 8.0 if n > 1 else 1.0
+        z[-1] = 9.0
+        v = np.arange(1.0, n + 1.0)
+        fname, kw = self.items[ii]
+        if fname == "crosstab":
+            v = v % 3
+        return fname, dict(kw), z.reshape(shape), v.reshape(shape), ch
+
+    def describe(self, rank):
+        fname, kw, z, v, ch = self.case(rank)
+        return {"function": fname, "kwargs": kw, "blocks": len(ch[0]) * len(ch[1]), "zones": z, "values": v}
+
+    def run(self, lo, hi, out):
+        for rank in range(lo, hi):
+            fname, kw, z, v, ch = self.case(rank)
+            self.judge(out, rank, fname, z, v, ch, ch, kw)
+
+
 class ScheduleSpace(_Base):
     """E3c: all schedules with <= 1 deviation on 2-block graphs (crosstab; stats under a stated cap)."""
 
@@ -406,5 +447,6 @@ def build(tier):
         sp.append(IndependentChunkSpace("2x4", "stats", {}, "default"))
         sp.append(IndependentChunkSpace("2x4", "crosstab", {"agg": "count"}, "count"))
         sp.append(IndependentChunkSpace("2x3", "crosstab", {"agg": "percentage"}, "percentage"))
-    sp += [StatsParamSpace(tier), CrosstabParamSpace(tier), Crosstab3DSpace(tier), ScheduleSpace(tier), ThreadsSpace(tier)]
+    sp += [StatsParamSpace(tier), CrosstabParamSpace(tier), Crosstab3DSpace(tier), BlockCountSpace(tier), ScheduleSpace(tier),
+           ThreadsSpace(tier)]
     return sp
